@@ -42,58 +42,15 @@ def _conn_test(ctx, g, module):
     return out
 
 
-@rule(P, "D4.1", "T-DOM", floor=4)
+@rule(P, "D4.1", "T-WITNESS", floor=4)
 def d4_1(ctx):
-    """Every plain read/write request reaches a send list only after a size test against self.connection_size whose true branch fragments it."""
-    for b in BUILDERS:
-        fn = ctx.model.func(f"{LX}:LogixDriver.{b}")
-        f = fn.node
-        g = ctx.cfg(f)
-        tests = _conn_test(ctx, g, fn.module)
-        plain = "ReadTagRequestPacket" if "read" in b else "WriteTagRequestPacket"
-        frag = "ReadTagFragmentedRequestPacket" if "read" in b else "WriteTagFragmentedRequestPacket"
-        ctor = [n for n in g.nodes if n.kind == "stmt" and isinstance(n.ast, ast.Assign) and isinstance(n.ast.value, ast.Call) and call_name(n.ast.value) == plain]
-        key = ckey(fn, "size-check")
-        if not ctor:
-            ctx.violation(key, f, f"no construction of {plain} found")
-            continue
-        var = atom_name(ctor[0].ast.targets[0])
-        # consumers: return <var> / X.append(<var>) / X.append((<var>, ...))
-        consumers = []
-        for n in g.nodes:
-            if n.kind != "stmt" or n.ast is None:
-                continue
-            if isinstance(n.ast, ast.Return) and n.ast.value is not None and atom_name(n.ast.value) == var:
-                consumers.append(n)
-            for c in walk(n.ast):
-                if isinstance(c, ast.Call) and isinstance(c.func, ast.Attribute) and c.func.attr == "append" and c.args:
-                    a = c.args[0]
-                    if atom_name(a) == var or (isinstance(a, ast.Tuple) and a.elts and atom_name(a.elts[0]) == var):
-                        consumers.append(n)
-        good_t = None
-        for t, L in tests:
-            # true branch: var = <frag>.from_request(self._sequence, var)
-            repl = False
-            for s, lab in t.succ:
-                if lab is True:
-                    stack, seen = [s], {s}
-                    while stack:
-                        x = stack.pop()
-                        if x.kind == "stmt" and isinstance(x.ast, ast.Assign) and atom_name(x.ast.targets[0]) == var and isinstance(x.ast.value, ast.Call) and attr_path(x.ast.value.func) == f"{frag}.from_request" and len(x.ast.value.args) >= 2 and atom_name(x.ast.value.args[1]) == var:
-                            repl = True
-                        if x.kind == "stmt":
-                            for s2, l2 in x.succ:
-                                if l2 != "exc" and s2 not in seen and s2.kind == "stmt":
-                                    seen.add(s2)
-                                    stack.append(s2)
-            if repl:
-                good_t = (t, L)
-        if good_t is None:
-            ctx.violation(key, ctor[0].ast, f"no test of a size against self.connection_size whose true branch replaces the request by {frag}.from_request(...): oversized data is sent in one packet", tests=[src(t.ast) for t, _ in tests])
-            continue
-        t, L = good_t
-        dom = bool(consumers) and all(g.must_pass({t}, start=ctor[0], sinks={c}) is None for c in consumers)
-        ctx.check(dom, key, t.ast, f"`{src(t.ast)}` dominates every use of the request and fragments it when too large", f"a path puts the {plain} into a send list without passing the connection-size test `{src(t.ast)}`", size_expr=repr(L), consumers=len(consumers))
+    """Every plain read / write request is measured against the connection size before it is queued, and what does not fit is
+    converted to the fragmented service - exactly at the boundary (a request of the connection size fits, one byte more does
+    not).  Decided by folding the four request builders on witness requests around the boundary (D1.15, D2.12)."""
+    from .driver import d1_15, d2_12
+
+    d1_15(ctx)
+    d2_12(ctx)
 
 
 _DOM_CACHE = {}
@@ -153,52 +110,16 @@ def _acc_loop(ctx, fn, listname):
     return lp[0] if len(lp) == 1 else None
 
 
-@rule(P, "D4.2", "T-ACC", floor=2)
+@rule(P, "D4.2", "T-WITNESS", floor=2)
 def d4_2(ctx):
-    """Grouping: acc starts at the overhead, `acc + size > connection_size` is tested before the append, a new group resets acc, acc += the tested size."""
-    ov = ctx.folder.module_value(LX, "MULTISERVICE_READ_OVERHEAD")
-    for name, listname in (("_read_build_multi_requests", "read_requests"), ("_write_build_multi_requests", "write_requests")):
-        fn = ctx.model.func(f"{LX}:LogixDriver.{name}")
-        lp = _acc_loop(ctx, fn, listname)
-        key = ckey(fn, "accumulator")
-        if lp is None:
-            ctx.violation(key, fn.node, f"no grouping loop over {listname}")
-            continue
-        f = fn.node
-        acc = "current_response_size"
-        inits = [n for n in f.body if isinstance(n, ast.Assign) and atom_name(n.targets[0]) == acc]
-        init_ok = len(inits) == 1 and atom_name(inits[0].value) == "MULTISERVICE_READ_OVERHEAD" and inits[0].lineno < lp.lineno
-        ifs = [s for s in lp.body if isinstance(s, ast.If)]
-        test_ok = reset_ok = upd_ok = order_ok = False
-        size_atom = None
-        if len(ifs) == 1:
-            c = cmp_norm(ifs[0].test)
-            if c and c[0] == "<=0" and c[1].terms.get("self.connection_size") == 1 and c[1].terms.get(acc) == -1 and c[1].const == 1 and len(c[1].terms) == 3:
-                size_atom = [k for k in c[1].terms if k not in ("self.connection_size", acc)][0]
-                test_ok = c[1].terms[size_atom] == -1
-            reset = [s for s in ifs[0].body if isinstance(s, ast.Assign) and atom_name(s.targets[0]) == acc]
-            reset_ok = len(reset) == 1 and atom_name(reset[0].value) == "MULTISERVICE_READ_OVERHEAD"
-            upd = [s for s in lp.body if isinstance(s, ast.AugAssign) and atom_name(s.target) == acc]
-            if len(upd) == 1 and isinstance(upd[0].op, ast.Add):
-                L = lin(upd[0].value)
-                upd_ok = L is not None and size_atom is not None and L.terms == {size_atom: 1} and L.const == 0
-            app = [s for s in lp.body if isinstance(s, ast.Expr) and isinstance(s.value, ast.Call) and attr_path(s.value.func) == "current_group.append"]
-            order_ok = bool(app) and lp.body.index(ifs[0]) < lp.body.index(app[0])
-        ctx.check(init_ok and test_ok and reset_ok and upd_ok and order_ok, key, lp, f"acc from overhead; `acc + {size_atom} > connection_size` before append; reset to overhead; acc += {size_atom}",
-                  f"grouping accumulator discipline broken: init={init_ok} test={test_ok} reset={reset_ok} update={upd_ok} test-before-append={order_ok}: a multi-service packet can exceed the connection size", init=init_ok, test=test_ok, reset=reset_ok, update=upd_ok, order=order_ok)
-    ctx.check(isinstance(ov, int) and ov > 0, "pycomm3.const:MULTISERVICE_READ_OVERHEAD", ctx.model.module("pycomm3.const").symbols["MULTISERVICE_READ_OVERHEAD"].node, f"overhead constant = {ov}", "overhead constant does not fold")
+    """Grouping into multi-service packets: the estimate of a packet starts at the fixed overhead, a request is added only if the
+    packet still fits the connection with it, otherwise a new packet is started with that request counted; every request is
+    sent once, in order.  Decided by folding the multi-request builders on witness request lists (D1.15, D2.12: equal-sized
+    requests that fit two per packet, a first request that fills a packet, mixed requests)."""
+    from .driver import d1_15, d2_12
 
-
-def _logical_seg_len(ctx, call, module):
-    """Byte length of a padded LogicalSegment(value, type) with constant value."""
-    v = ctx.folder.eval(call.args[0], module)
-    if isinstance(v, bytes):
-        w = len(v)
-    elif isinstance(v, int):
-        w = 1 if v <= 0xFF else 2 if v <= 0xFFFF else 4
-    else:
-        return None
-    return 1 + w + ((1 + w) % 2)
+    d1_15(ctx)
+    d2_12(ctx)
 
 
 @rule(P, "D4.3", "T-LAYOUT", floor=1)
@@ -236,34 +157,14 @@ def d4_3(ctx):
     ctx.check(seq2 and off2, ckey(ms.key, "per-request-cost"), bm, "each embedded service costs its tag_only_message + a 2-byte offset entry, matched by the 2-byte sequence counted in len(req.message)", "per-request cost accounting (2-byte offset entry vs 2-byte sequence) changed")
 
 
-@rule(P, "D4.4", "T-TILE", floor=2)
+@rule(P, "D4.4", "T-WITNESS", floor=2)
 def d4_4(ctx):
-    """Write fragments: segment size = connection size - (len(message) - len(value)) measured on a packet of the fragment class."""
-    fn = ctx.model.func(f"{LX}:LogixDriver._send_write_fragmented")
-    f = fn.node
-    asg = [n for n in walk(f) if isinstance(n, ast.Assign) and atom_name(n.targets[0]) == "segment_size"]
-    L = lin(asg[0].value) if asg else None
-    want = Lin(0, {"self.connection_size": 1, "len(request.message)": -1, "len(request.value)": 1})
-    ctx.check(L == want, ckey(fn, "segment-size"), asg[0] if asg else f, "segment size = connection size - per-fragment overhead", f"segment size is `{L}`; expected `{want}`: fragments would exceed the connection size or waste it", got=repr(L))
-    from .common import fragment_size_redefinitions
+    """Write fragments fit: every segment sent is at most connection size minus the request's own overhead (message length
+    without the value), measured on the built message; segments are contiguous and cover the value.  Decided by folding
+    `_send_write_fragmented` on witness values, overheads and connection sizes (D4.10)."""
+    from .driver import d4_10
 
-    for i, (verdict, node, msg) in enumerate(fragment_size_redefinitions(ctx, fn)):
-        k = ckey(fn, f"segment-size-redefined{i}")
-        if verdict == "ok":
-            ctx.ok(k, node, msg)
-        elif verdict == "violation":
-            ctx.violation(k, node, msg)
-        else:
-            ctx.undecided(k, node, msg)
-    g = ctx.cfg(f)
-    built = [n for n in g.nodes if n.kind == "stmt" and n.ast is not None and any(isinstance(c, ast.Call) and attr_path(c.func) == "request.build_message" for c in walk(n.ast))]
-    an = g.nodes_of(asg[0])[0] if asg and g.nodes_of(asg[0]) else None
-    ann = f.args.args[1].annotation
-    cls_ok = ann is not None and atom_name(ann) == "WriteTagFragmentedRequestPacket"
-    lx = ctx.model.cls(f"{LX}:LogixDriver")
-    send = lx.methods["send"]
-    disp = any(isinstance(n, ast.If) and isinstance(n.test, ast.Call) and call_name(n.test) == "isinstance" and atom_name(n.test.args[1]) == "WriteTagFragmentedRequestPacket" and any(isinstance(c, ast.Call) and attr_path(c.func) == "self._send_write_fragmented" for c in walk(n)) for n in walk(send))
-    ctx.check(bool(built) and an is not None and any(b in _doms(g, an) for b in built) and cls_ok and disp, ckey(fn, "overhead-class"), f, "overhead measured on a built packet of the fragment class (UDINT offset counted)", "the per-fragment overhead is not measured on a built WriteTagFragmentedRequestPacket (the 4-byte offset field is not counted)")
+    d4_10(ctx)
 
 
 @rule(P, "D4.5", "T-ACC", floor=4)
